@@ -3,6 +3,7 @@ package simnode
 import (
 	"encoding/json"
 	"fmt"
+	"strings"
 )
 
 // Corruption is one scripted mutation of one exchange's reply.  It is applied
@@ -228,6 +229,16 @@ func (c Corruption) Apply(x *Exchange) bool {
 			return false
 		}
 		o["hash"] = "0x"
+	case "num-wrap", "num-pad", "num-long": // the number of a block / header element in another spelling
+		o, ok := blockObj(x, c.Pos)
+		if !ok {
+			return false
+		}
+		own, _ := ParseQty(str(o["number"]))
+		o["number"] = WideQty(c.Kind, own, c.Arg)
+		if c.Kind != "num-pad" {
+			x.Garbled = true
+		}
 	case "garble-number":
 		o, ok := blockObj(x, c.Pos)
 		if !ok {
@@ -296,6 +307,24 @@ func (c Corruption) Apply(x *Exchange) bool {
 			}
 			o["logIndex"] = Qty(uint64(c.Arg))
 		}
+	case "item-num-wrap", "item-num-pad", "item-num-long": // the blockNumber of one item in another spelling
+		l, ok := items(x, c.Pos)
+		if !ok || c.Sub < 0 || c.Sub >= len(l) {
+			return false
+		}
+		o, ok := obj(l[c.Sub])
+		if !ok {
+			return false
+		}
+		cur, isStr := o["blockNumber"].(string)
+		if !isStr {
+			return false // trace_block spells it as a JSON number
+		}
+		own, _ := ParseQty(cur)
+		o["blockNumber"] = WideQty(strings.TrimPrefix(c.Kind, "item-"), own, c.Arg)
+		if c.Kind != "item-num-pad" {
+			x.Garbled = true
+		}
 	case "items-move": // every item of the element renumbered
 		l, ok := items(x, c.Pos)
 		if !ok || len(l) == 0 {
@@ -315,6 +344,26 @@ func (c Corruption) Apply(x *Exchange) bool {
 		return false
 	}
 	return true
+}
+
+// WideQty spells quantities of more than 16 hex digits:
+//
+//	num-wrap  own + k*2^64: the high digits 1, f, 10, ab (arg 0..3) in front of the 16 digits of own
+//	          (17 or 18 digits; ANOTHER number, equal to own only modulo 2^64: must be refused)
+//	num-pad   own left-padded with zeros to arg digits (17..20; a valid spelling of own)
+//	num-long  19 and more digits with a non-zero head (arg 0: 1 + 18 digits, 1: ff + 20 digits): must be refused
+func WideQty(kind string, own uint64, arg int64) string {
+	switch kind {
+	case "num-wrap":
+		return "0x" + []string{"1", "f", "10", "ab"}[int(arg)%4] + fmt.Sprintf("%016x", own)
+	case "num-pad":
+		return fmt.Sprintf("0x%0*x", int(arg), own)
+	default:
+		if arg%2 == 0 {
+			return "0x1" + fmt.Sprintf("%018x", own)
+		}
+		return "0xff" + fmt.Sprintf("%020x", own)
+	}
 }
 
 func blockObj(x *Exchange, pos int) (Obj, bool) {
@@ -399,6 +448,14 @@ func Enumerate(x *Exchange, start, limit uint64) []Corruption {
 			add("break-hash", i, 0, 0)
 			add("empty-hash", i, 0, 0)
 			add("garble-number", i, 0, 0)
+			for a := int64(0); a < 4; a++ {
+				add("num-wrap", i, 0, a)
+			}
+			for _, a := range []int64{17, 18, 20} {
+				add("num-pad", i, 0, a)
+			}
+			add("num-long", i, 0, 0)
+			add("num-long", i, 0, 1)
 			if txs, ok := o["transactions"].([]any); ok {
 				for k := range txs {
 					add("tx-drop", i, k, 0)
@@ -432,6 +489,11 @@ func Enumerate(x *Exchange, start, limit uint64) []Corruption {
 				add("item-drop", i, k, 0)
 				add("item-dup", i, k, 0)
 				add("item-null", i, k, 0)
+				if _, isStr := o["blockNumber"].(string); isStr {
+					add("item-num-wrap", i, k, int64(k%4))
+					add("item-num-pad", i, k, int64(17+k%4))
+					add("item-num-long", i, k, int64(k%2))
+				}
 				add("item-txidx", i, k, 7)
 				if k > 0 {
 					add("item-txidx", i, k, 0)
